@@ -231,7 +231,14 @@ def genHistory (len : Nat) (period : Nat) (onlyValid : Bool) : Gen History := do
     else if k = 17 then
       if !onlyValid then
         -- invalid PCR PID, a failing WriteTables, then repair
-        ops := ops ++ [.setPCR 0x555, .tables, .setPCR pcr]
+        if (← chance 1 2) || pids.isEmpty then ops := ops ++ [.setPCR 0x555, .tables, .setPCR pcr]
+        else
+          -- a WriteData whose due tables cannot be generated (invalid PCR PID; forced by the random access indicator when
+          -- they are not due anyway), then the repair and another WriteData: the tables come before its PES
+          let d1 ← genData (← pick pids) true 20
+          let d2 ← genData (← pick pids) false
+          let af1 := { (d1.adaptationField.getD {}) with randomAccessIndicator := true }
+          ops := ops ++ [.setPCR 0x555, .data { d1 with pid := 0x555, adaptationField := some af1 }, .data d1, .setPCR pcr, .data d2]
     else if k = 18 then
       if !onlyValid then
         let p ← genPacket
@@ -410,6 +417,23 @@ def runC16mux (t : Tier) : Emit Unit := do
 
 def runC01 (t : Tier) : Emit Unit := do
   runReuse "C01" t 8
+  -- payload sizes around the 16-bit PES_packet_length limit, one unit per history (every run, whatever the seed)
+  for rep in [0:(if t.quick then 1 else 4)] do
+    for delta in [0, 1, 2, 65535] do
+      let mut d0 ← liftGen (genData 0x100 false 100 false)
+      for _ in [0:20] do
+        if d0.pes.header.optionalHeader.isNone then d0 ← liftGen (genData 0x100 false 100 false)
+      if d0.pes.header.optionalHeader.isNone then continue
+      -- an audio stream id (PES_packet_length is meaningful) with its optional header
+      let d : MuxerData := { d0 with pes := { d0.pes with header := { d0.pes.header with streamID := 0xc0 } } }
+      let optL := calcPESOptionalHeaderLength d.pes.header.optionalHeader
+      -- payload + optional header = 65535 (the largest announced length), 65536, 65537; payload alone = 65535
+      let n := if delta = 65535 then 65535 else 65535 - optL + delta
+      let payload ← liftGen (randBytes n)
+      let _ := rep
+      let h : History := { period := 40, ops := [.add { elementaryPID := 0x100, streamType := 0x0f }, .setPCR 0x100,
+                                                 .data { d with pes := { d.pes with data := payload } }] }
+      emit "C01" (muxDemuxCase h "mux-demux-16-bit-limit")
   for _ in [0:(if t.quick then 25 else 250)] do
     let period ← liftGen genPeriod
     let h ← liftGen (genHistory 25 period true)
